@@ -33,8 +33,8 @@ Proof. vm_compute. intuition. Qed.
 Example chain_nonempty : exists c mm rest, cmds (srun s0 [Do sel; Do (AddData 1)]) = (c, mm) :: rest.
 Proof. eexists. eexists. eexists. vm_compute. reflexivity. Qed.
 
-(* the stack bound is reached and not exceeded: 60 commands leave stack_keep of them *)
-Example burst : length (cmds (srun s0 (repeat (Do (AddData 1)) 60))) = Z.to_nat stack_keep.
+(* the stack bound is reached and not exceeded: stack_keep + 10 commands leave stack_keep of them *)
+Example burst : length (cmds (srun s0 (repeat (Do (AddData 1)) (Z.to_nat stack_keep + 10)))) = Z.to_nat stack_keep.
 Proof. vm_compute. reflexivity. Qed.
 
 (* ---- F-C13, kept as a record of what the repaired code excludes ----
@@ -53,3 +53,8 @@ Example f_c13_witness :
 Proof.
   vm_compute. repeat split; auto. intros [_ H _ _ _ _]. vm_compute in H. discriminate.
 Qed.
+
+(* history_replay's ghost list: stack_keep + 3 commands cut off the three oldest *)
+Example forgotten_burst :
+  forgotten s0 (Do sel :: Do (RemoveData 0) :: repeat (Do (AddData 1)) (Z.to_nat stack_keep + 1)) [] = [sel; RemoveData 0; AddData 1].
+Proof. vm_compute. reflexivity. Qed.
